@@ -8,9 +8,56 @@ from vlib.core import *
 SPEC = os.path.join(VERIF, "specs", "RevTree")
 HARNESS = ["harness/db/c04_revtree_test.go"]
 STEP_ACTS = ("Add", "Hist", "Prune", "Child")
-# TLC-evaluated class of the one named deviation of the code (RevTree.tla: StaleBranched): documentUpdateFunc computes the
-# flags and then prunes to revs_limit, so the write that ages out the last other (tombstoned) branch stores Branched=true
+# A defect this check found (now repaired in /repo): documentUpdateFunc computed the flags and then pruned to revs_limit, so
+# the write that aged out the last other (tombstoned) branch stored Branched=true.  Should it return, TLC recognises the class
+# on real state (RevTree.tla: StaleBranched, Trace_RevTree_Pm.cfg) and it is reported under this fixed key.
 STALE_KEY = "FlagsAgree:Branched-stale-after-the-write-that-aged-out-the-last-tombstoned-branch"
+# local variants of core.model_check / core.behaviours with a unique tag (own scratch directory): the TLC runs of one stage
+# are independent JVMs and run side by side, at most POOL at a time
+POOL = max(2, min(8, NCPU // 2))
+
+
+def parallel(jobs, pool=POOL):
+    """jobs: {name: thunk} -> {name: result}; the first exception (Inconclusive included) is re-raised"""
+    from concurrent.futures import ThreadPoolExecutor
+    with ThreadPoolExecutor(max_workers=pool) as ex:
+        futs = {k: ex.submit(f) for k, f in jobs.items()}
+        return {k: f.result() for k, f in futs.items()}
+
+
+def mc(ctx, cfg, tag, workers):
+    r = tlc(ctx, SPEC, "MC_RevTree", cfg, timeout=3000, coverage=(ctx.tier == "thorough"), workers=workers, tag=tag)
+    if r.inv_violated:
+        raise Inconclusive("model counterexample in MC_RevTree/%s: %s violated (candidate only; not reproduced on real code)\n%s"
+                           % (cfg, r.inv_violated, "\n".join("\n".join(x["_txt"]) for x in r.error_trace[-3:])))
+    if r.distinct == 0:
+        raise Inconclusive("TLC reported no states for MC_RevTree/%s\n%s" % (cfg, r.out[-800:]))
+    ctx.cov["states"] += r.distinct
+    ctx.cov["transitions"] += r.generated
+    if r.coverage_zero:
+        ctx.notes.append("zero-coverage actions in %s: %s" % (cfg, sorted(set(r.coverage_zero))))
+    log("  TLC %-14s %-32s %9d distinct %10d generated depth %3d  %.1fs" % ("MC_RevTree", cfg, r.distinct, r.generated, r.depth, r.wall))
+    return r
+
+
+def beh(ctx, cfg, tag, num=None, depth=None):
+    if num is None:
+        r = tlc(ctx, SPEC, "MC_RevTree", cfg, timeout=3000, workers=1, tag=tag)
+    else:
+        r = tlc(ctx, SPEC, "MC_RevTree", cfg, mode="simulate", simulate=num, depth=depth, timeout=3000, tag=tag)
+    if r.inv_violated:
+        raise Inconclusive("behaviour generation MC_RevTree/%s violated %s" % (cfg, r.inv_violated))
+    res, seen = [], set()
+    for t, txt in r.printed:
+        if t == "BEH":
+            js = json.loads(txt)
+            if js not in seen:
+                seen.add(js)
+                res.append(json.loads(js))
+    if not res:
+        raise Inconclusive("no behaviours exported by MC_RevTree/%s\n%s" % (cfg, r.out[-800:]))
+    log("  TLC %-14s %-32s exported %d distinct behaviours  %.1fs" % ("MC_RevTree", cfg, len(res), r.wall))
+    return res
 
 
 def run(ctx):
@@ -21,21 +68,43 @@ def run(ctx):
         replay_and_validate(ctx, [rep["replay"]["behaviour"]])
         ctx.cov["rule"] = "replay of %s" % ctx.replay
         return
-    # 1. the design: one replica, every action, both levels and modes; then two replicas fed the same inputs
+    # stage 1, side by side: the design (one replica, every action, both levels and modes; two replicas fed the same
+    # inputs), the behaviour exports, and a warm-up build of the package test binary
+    suf = ".cfg" if q else "_thorough.cfg"
+    jobs = {"warm": lambda: warm_build(ctx)}
     if not os.environ.get("VERIF_C04_SKIP_MC"):          # development knob
-        model_check(ctx, SPEC, "MC_RevTree", "MC_RevTree.cfg" if q else "MC_RevTree_thorough.cfg", timeout=3000)
-        model_check(ctx, SPEC, "MC_RevTree", "MC_RevTree_OI.cfg", timeout=3000)
-    if not q:
-        model_check(ctx, SPEC, "MC_RevTree", "MC_RevTree_OI_thorough.cfg", timeout=3000)
-    ctx.cov["exhaustive"] = True
-    # 2. behaviours: transition covers of small instances (every transition out of every distinct reachable state),
-    #    every (input sequence, permutation) pair for two replicas, plus seeded simulations of larger instances
-    behs = generate(ctx, q, rnd)
+        jobs["mc"] = lambda: mc(ctx, "MC_RevTree" + suf, "mc", max(2, NCPU // 3))
+        jobs["mcoi"] = lambda: mc(ctx, "MC_RevTree_OI.cfg", "mcoi", 2)
+        if not q:
+            jobs["mcoi2"] = lambda: mc(ctx, "MC_RevTree_OI_thorough.cfg", "mcoi2", 2)
+    cache = os.environ.get("VERIF_C04_BEH_CACHE")        # development knob: reuse exported behaviours
+    cached = cache and os.path.exists(cache)
+    if not cached:
+        for name in ("tree", "db", "oi"):
+            jobs["beh_" + name] = (lambda n: lambda: drop_prefixes(beh(ctx, "Beh_RevTree_%s%s" % (n, suf), "beh_" + n)))(name)
+            if not q and name != "oi":      # the thorough tier also replays (a sample of) the small covers
+                jobs["behs_" + name] = (lambda n: lambda: drop_prefixes(beh(ctx, "Beh_RevTree_%s.cfg" % n, "behs_" + n)))(name)
+        # conflicts allowed, three steps: the writes after which the winner falls back to an older live branch
+        jobs["beh_dbconf"] = lambda: drop_prefixes(beh(ctx, "Beh_RevTree_dbconf.cfg", "beh_dbconf"))
+        # (TLC's simulator evaluates the exporting invariant on every successor of the last step: sampled below)
+        jobs["sim"] = lambda: beh(ctx, "Sim_RevTree.cfg", "sim", num=200 if q else 2000, depth=8)
+        jobs["simoi"] = lambda: beh(ctx, "Sim_RevTree_oi.cfg", "simoi", num=300 if q else 4000, depth=8)
+    res = parallel(jobs)
+    ctx.cov["exhaustive"] = "mc" in res
+    if cached:
+        behs = json.load(open(cache))
+        ctx.notes.append("behaviours replayed: %d from cache %s" % (len(behs), cache))
+    else:
+        behs = select(ctx, q, rnd, res)
+        if cache:
+            write_json(cache, behs)
+    # stage 2: replay on the real code; stage 3: validation of the recorded real state (pass P and pass C side by side)
     replay_and_validate(ctx, behs)
-    ctx.cov["rule"] = ("behaviours = transition covers (every transition out of every distinct reachable state, seeded sample in the quick tier) of the "
-                       "tree-level model (TryAdd/PutHistory/Prune, gens 1..2(3) x 2 digests, two generation-value maps) and the database-level model "
-                       "(Put/DeleteDoc/PutExistingRevWithBody, AllowConflicts x revs_limit {default,1,2}), all (input sequence, permutation) pairs for two "
-                       "replicas, plus seeded TLC simulations of length 6 over 3 gens x 3 digests; non-trivial = the real tree had >= 2 leaves at some step")
+    ctx.cov["rule"] = ("behaviours = transition covers (every transition out of every distinct reachable state; seeded sample stratified by the kind "
+                       "of the last step) of the tree-level model (TryAdd/PutHistory/Prune, gens 1..2(3) x 2 digests, two generation-value maps) and the "
+                       "database-level model (Put/DeleteDoc/PutExistingRevWithBody, AllowConflicts x revs_limit {default,1,2}; a 3-step conflicts-allowed "
+                       "cover), all (input sequence, permutation) pairs for two replicas, plus seeded TLC simulations of length 6 over 3-4 gens x 3 "
+                       "digests; non-trivial = the real tree had >= 2 leaves at some step")
     ctx.assumptions += ["digests enter the code only through string comparison and generations through order, +1 and the prune threshold: rev ids are "
                         "projected to [generation, rank of digest] (order preserving); tree-level generations use the behaviour's generation-value map",
                         "order independence is stated for mutually consistent inputs (one parent and one deleted flag per revision id, complete ancestries) "
@@ -44,36 +113,26 @@ def run(ctx):
                         "RepairCycles (legacy data repair) is outside the property"]
 
 
-def generate(ctx, q, rnd):
-    cache = os.environ.get("VERIF_C04_BEH_CACHE")            # development knob: reuse exported behaviours
-    if cache and os.path.exists(cache):
-        behs = json.load(open(cache))
-        ctx.notes.append("behaviours replayed: %d from cache %s" % (len(behs), cache))
-        return behs
-    suf = ".cfg" if q else "_thorough.cfg"
-    cap = (1200, 1000, 800, 600) if q else (8000, 6000, 10000, 4000)
-    simcap = (300, 150) if q else (3000, 1500)
+def warm_build(ctx):
+    """compile the package test binary while TLC works (the harness skips without VERIF_BEH); failures surface in the real run"""
+    try:
+        go_test(ctx, "db", "^TestVerif_C04_RevTree$", HARNESS, env={"VERIF_BEH": "", "VERIF_TRACE_OUT": ""}, timeout=2400)
+    except Inconclusive:
+        pass
+
+
+def select(ctx, q, rnd, res):
+    cap = {"tree": 800, "db": 700, "dbconf": 600, "oi": 400, "sim": 250, "simoi": 100} if q else \
+          {"tree": 8000, "db": 6000, "dbconf": 10000, "oi": 4000, "sim": 3000, "simoi": 1500}
     if os.environ.get("VERIF_C04_CAPS"):     # development knob: "tree,db,dbconf,oi,sim,simoi"
-        v = [int(x) for x in os.environ["VERIF_C04_CAPS"].split(",")]
-        cap, simcap = tuple(v[:4]), tuple(v[4:6])
+        cap = dict(zip(("tree", "db", "dbconf", "oi", "sim", "simoi"), [int(x) for x in os.environ["VERIF_C04_CAPS"].split(",")]))
     parts = []
-    for name, n in zip(("tree", "db", "dbconf", "oi"), cap):
-        # dbconf: conflicts allowed, three steps - the writes after which the winner falls back to an older live branch
-        cfgname = "Beh_RevTree_dbconf.cfg" if name == "dbconf" else "Beh_RevTree_%s%s" % (name, suf)
-        allb = drop_prefixes(behaviours(ctx, SPEC, "MC_RevTree", cfgname, timeout=3000))
-        if not q and name in ("tree", "db"):   # the thorough tier also replays (a sample of) the small covers
-            allb += drop_prefixes(behaviours(ctx, SPEC, "MC_RevTree", "Beh_RevTree_%s.cfg" % name, timeout=3000))
-        parts.append((name, len(allb), sample(rnd, allb, n)))
-    # (TLC's simulator evaluates the exporting invariant on every successor of the last step: sample them)
-    sims = behaviours(ctx, SPEC, "MC_RevTree", "Sim_RevTree.cfg", num=200 if q else 2000, depth=8, timeout=1800)
-    parts.append(("sim", len(sims), sample(rnd, sims, simcap[0])))
-    sims = behaviours(ctx, SPEC, "MC_RevTree", "Sim_RevTree_oi.cfg", num=400 if q else 4000, depth=8, timeout=1800)
-    parts.append(("simoi", len(sims), sample(rnd, sims, simcap[1])))
-    behs = [b for _, _, bs in parts for b in bs]
-    ctx.notes.append("behaviours replayed: " + ", ".join("%s %d%s" % (nm, len(bs), (" of %d" % tot) if tot else "") for nm, tot, bs in parts))
-    if cache:
-        write_json(cache, behs)
-    return behs
+    for name in ("tree", "db", "dbconf", "oi", "sim", "simoi"):
+        allb = res["beh_" + name] if "beh_" + name in res else res[name]
+        allb = allb + res.get("behs_" + name, [])
+        parts.append((name, len(allb), sample(rnd, allb, cap[name])))
+    ctx.notes.append("behaviours replayed: " + ", ".join("%s %d of %d" % (nm, len(bs), tot) for nm, tot, bs in parts))
+    return [b for _, _, bs in parts for b in bs]
 
 
 def drop_prefixes(behs):
@@ -143,33 +202,41 @@ def replay_and_validate(ctx, behs):
     mid = groups[len(groups) // 2]
     ctx.sample({"behaviour": behs[mid[0]["beh"]], "real_trace_head": mid[1:3]})
 
-    # pass P - the property on the recorded real state.  Every recorded behaviour is a TLC behaviour of its own (initial
-    # states = Reset lines) and TLC runs with -continue: one run lists every violating behaviour.
-    live = list(groups)
-    res = validate_all(ctx, "Trace_RevTree_P.cfg", live, "P")
+    # pass P (the property on the recorded real state) and pass C (every recorded step is an instance of the spec's action
+    # from the previous real state), side by side and in chunks.  Every recorded behaviour is a TLC behaviour of its own
+    # (initial states = Reset lines) and TLC runs with -continue: one run lists every violating behaviour.
+    nchunk = max(1, min(POOL // 2, len(groups) // 1500 + 1))
+    chunks = [groups[k::nchunk] for k in range(nchunk)]
+    jobs = {}
+    for k, ch in enumerate(chunks):
+        jobs[("P", k)] = (lambda c, k: lambda: validate_all(ctx, "Trace_RevTree_P.cfg", c, "P%d" % k))(ch, k)
+        jobs[("C", k)] = (lambda c, k: lambda: validate_all(ctx, "Trace_RevTree_C.cfg", c, "C%d" % k))(ch, k)
+    out = parallel(jobs)
+    res = merge([out[("P", k)] for k in range(nchunk)])
+    resc = merge([out[("C", k)] for k in range(nchunk)])
     bad = res["viol"]                          # id(group) -> (invariant, step, state text)
     stale = set()
     cand = set(gid for gid, v in bad.items() if v[0] == "FlagsAgree")
     if cand:
-        # TLC decides the class: these behaviours satisfy the property modulo the named deviation (FlagsAgreeModuloAgeing)
-        resm = validate_all(ctx, "Trace_RevTree_Pm.cfg", [g for g in live if id(g) in cand], "Pm")
+        # TLC decides the class: these behaviours satisfy the property modulo the (repaired) deviation StaleBranched
+        resm = validate_all(ctx, "Trace_RevTree_Pm.cfg", [g for g in groups if id(g) in cand], "Pm")
         stale = cand - set(resm["viol"]) - set(id(g) for g in resm["stalled"])
     if stale:
-        first = [g for g in live if id(g) in stale][0]
+        first = [g for g in groups if id(g) in stale][0]
         report_violation(ctx, STALE_KEY,
                          "stored Branched flag disagrees with the stored leaves after a write whose pruning removed the last other (tombstoned) "
-                         "branch - documentUpdateFunc computes the flags before pruneRevisions (%d behaviours of this run, first: %d)"
+                         "branch - the flags are not recomputed after pruneRevisions in documentUpdateFunc (%d behaviours of this run, first: %d)"
                          % (len(stale), first[0]["beh"]),
                          {"behaviour": behs[first[0]["beh"]], "invariant": "FlagsAgree", "real_trace": first, "instances": len(stale)})
     reported = 0
-    for g in live:
+    for g in groups:
         if id(g) in bad and id(g) not in stale:
             inv, step, txt = bad[id(g)]
-            beh = behs[g[0]["beh"]]
+            b = behs[g[0]["beh"]]
             if reported < 5:
-                report_violation(ctx, "%s:%s" % (inv, json.dumps(beh, sort_keys=True)),
+                report_violation(ctx, "%s:%s" % (inv, json.dumps(b, sort_keys=True)),
                                  "real revision tree breaks %s in behaviour %d (level %s) at its step %s" % (inv, g[0]["beh"], g[0]["lvl"], step),
-                                 {"behaviour": beh, "invariant": inv, "real_trace": g, "state": txt})
+                                 {"behaviour": b, "invariant": inv, "real_trace": g, "state": txt})
             reported += 1
     if reported > 5:
         ctx.notes.append("pass P: %d violating behaviours, 5 reported" % reported)
@@ -179,35 +246,25 @@ def replay_and_validate(ctx, behs):
         if not ctx.violations:
             raise Inconclusive(msg)
         ctx.notes.append(msg)
-    stalled_ids = set(id(g) for g in res["stalled"])
-    live = [g for g in live if (id(g) not in bad or id(g) in stale) and id(g) not in stalled_ids]
-    # pass C - every recorded step is an instance of the spec's action from the previous real state
-    try:
-        conformance(ctx, live)
-    except Inconclusive as ex:
-        if not ctx.violations:
-            raise
-        ctx.notes.append("pass C could not be completed after violations were recorded: %s" % str(ex)[:300])
-
-
-def conformance(ctx, live):
-    res = validate_all(ctx, "Trace_RevTree_C.cfg", live, "C")
-    badc = dict(res["viol"])
-    for g in res["stalled"]:
-        badc.setdefault(id(g), ("no matching action", None, None))
-    if res["viol"] and not res["stall_known"]:
-        # TLC skipped the end-of-run report: validate the remaining behaviours once more to see which were not consumed
-        rest = [g for g in live if id(g) not in badc]
-        res2 = validate_all(ctx, "Trace_RevTree_C.cfg", rest, "C2")
-        for gid, v in res2["viol"].items():
-            badc.setdefault(gid, v)
-        for g in res2["stalled"]:
+    # conformance is counted over the behaviours on which the property held
+    pbad = set(bad) | set(id(g) for g in res["stalled"])
+    badc = {gid: v for gid, v in resc["viol"].items() if gid not in pbad}
+    for g in resc["stalled"]:
+        if id(g) not in pbad:
             badc.setdefault(id(g), ("no matching action", None, None))
     if badc:
         ctx.cov["nonconformance"] += len(badc)
-        for g in [g for g in live if id(g) in badc][:3]:
-            ctx.notes.append("pass C rejected behaviour %d (%s, step %s): %s" % (g[0]["beh"], badc[id(g)][0], badc[id(g)][1], json.dumps(g)[:700]))
-    ctx.cov["traces_validated_against_impl"] += len(live) - len(badc)
+        for g in [g for g in groups if id(g) in badc][:3]:
+            ctx.notes.append("pass C rejected behaviour %d (%s, step %s): %s" % (g[0]["beh"], badc[id(g)][0], badc[id(g)][1], json.dumps(g)[:1500]))
+    ctx.cov["traces_validated_against_impl"] += len(groups) - len(pbad) - len(badc)
+
+
+def merge(results):
+    viol, stalled = {}, []
+    for r in results:
+        viol.update(r["viol"])
+        stalled += r["stalled"]
+    return {"viol": viol, "stalled": stalled}
 
 
 def validate_all(ctx, cfg, groups, tag):
@@ -247,7 +304,7 @@ def validate_all(ctx, cfg, groups, tag):
     if m:
         known = True
         stalled = [starts[int(x)] for x in re.findall(r"\d+", m.group(1)) if int(x) in starts]
-    if not known and not viol:
+    if not known:
         raise Inconclusive("TLC did not report which behaviours were consumed (%s)\n%s" % (cfg, r.out[-1500:]))
     return {"viol": viol, "stalled": [g for g in stalled if id(g) not in viol], "stall_known": known}
 
